@@ -185,7 +185,7 @@ def _run_one(case, ctx):
     m = recipes.fresh(case["recipe"])
     if adapters.is_leaf(m):
         raise monitor.OutOfScope()
-    common.domain(m)
+    common.domain(m, recipe=case["recipe"])
     if case["via"] == "negate":
         ctx.call("negate", m.negate)
     elif case["via"] == "Not":
